@@ -151,5 +151,7 @@ structure RInv (s : St) : Prop where
   closed_early : ∀ i, s.upClosed i = true → s.main = .returned ∨ (s.upCW i = false ∧ s.pump = .done)
   sig_le : s.sig ≤ 1 ∧ (s.sig = 1 → (s.pump = .closing ∨ s.pump = .done) ∧ s.main ≠ .returned)
   sig_pending : (s.pump = .closing ∨ s.pump = .done) → s.main ≠ .returned → s.sig = 1
+  /-- a connection that cannot be half-closed has been closed by the pump once the pump is done -/
+  pump_closed : s.pump = .done → ∀ i, s.upCW i = false → s.upClosed i = true
 
 end L4.Relay
